@@ -441,4 +441,521 @@ theorem unmarshal_noPanic (S : Schema) (h : S.decodeSafe = true) (d tag : Nat) (
   unfold unmarshal
   np_auto
 
+/-! ### C05: the encoder's field loop, the version cell -/
+
+theorem Res.bind_pure_nil {x : Res EncSt} :
+    (x >>= fun p => match p with | (b, v) => (pure (([] : List Item) ++ b, v) : Res EncSt)) = x := by
+  cases x with
+  | ok a => obtain ⟨b, v⟩ := a; rfl
+  | err e => rfl
+  | panic m => rfl
+
+/-- the tag under which a field is written (`dynTag`: the dynamic type's default tag). -/
+def fieldTag (S : Schema) (f : Field) (v : Val) : Nat :=
+  if f.dynTag then (match v with | .iface (some (d, _)) => (S.dyn d).defTag | _ => 0) else f.tag
+
+/-- the version cell a field is gated with: its own value for a set-version field, else the incoming cell. -/
+def fieldCell (f : Field) (v : Val) (cell : Option Ver) : Option Ver :=
+  if f.setVersion then some v.asVer else cell
+
+/-- the field is skipped by the version wrapper. -/
+def fieldOutOfRange (f : Field) (cell : Option Ver) : Bool :=
+  match f.vrange with
+  | some r => !(versionIn cell r)
+  | none => false
+
+theorem Res.ok_bind_pure_nil (cellv : Option Ver) (x : Res EncSt) :
+    (do let __x ← (Res.ok (([] : List Item), cellv) : Res EncSt)
+        let __x_1 ← x
+        (pure (__x.fst ++ __x_1.fst, __x_1.snd) : Res EncSt)) = x := by
+  cases x with
+  | ok a => rfl
+  | err e => rfl
+  | panic m => rfl
+
+theorem encFields_cons (S : Schema) (fuel : Nat) (f : Field) (fs : List Field) (v : Val)
+    (vs : List Val) (cell : Option Ver) :
+    encFields S (fuel + 1) (f :: fs) (v :: vs) cell =
+      if (fieldOutOfRange f (fieldCell f v cell) || (f.omitempty && v.isZero)) = true then
+        encFields S fuel fs vs (fieldCell f v cell)
+      else (do
+        let (a, ver2) ← encK S fuel f.kind (fieldTag S f v) v (fieldCell f v cell)
+        let (b, ver3) ← encFields S fuel fs vs ver2
+        pure (a ++ b, ver3)) := by
+  rw [encFields.eq_def]
+  dsimp only
+  unfold fieldOutOfRange fieldCell fieldTag
+  cases hr : f.vrange <;> dsimp only <;>
+    exact ite_congr rfl (fun _ => Res.ok_bind_pure_nil _ _) (fun _ => rfl)
+
+theorem decFields_present (S : Schema) (fuel : Nat) (f : Field) (fs : List Field) (c : Cur)
+    (ver : Option Ver) (ht : c.tag = f.tag) (hd : f.dynTag = false) :
+    decFields S (fuel + 1) (f :: fs) c ver = (do
+      let (v, c1, ver1) ← decK S fuel f.kind f.tag c ver
+      let ver2 := if f.setVersion then some v.asVer else ver1
+      let (vs, st) ← decFields S fuel fs c1 ver2
+      pure (v :: vs, st)) := by
+  rw [decFields.eq_def]
+  dsimp only
+  cases hr : f.vrange <;> simp [ht, hd] <;> rfl
+
+mutual
+  /-- every interface value inside `v` holds a dynamic type accepted by `A`. -/
+  def Val.dynsOk (A : Nat → Bool) : Val → Bool
+    | .struct fs => Val.dynsOkL A fs
+    | .ptr (some x) => x.dynsOk A
+    | .list xs => Val.dynsOkL A xs
+    | .iface (some (d, x)) => A d && x.dynsOk A
+    | _ => true
+  def Val.dynsOkL (A : Nat → Bool) : List Val → Bool
+    | [] => true
+    | v :: vs => v.dynsOk A && Val.dynsOkL A vs
+end
+
+mutual
+  /-- no set-version field is reachable from kind `k` through struct fields, pointers, slices and the
+      hand-written encoders (interfaces are accounted for on the value side, see `Val.dynsOk`). -/
+  def svFreeK (S : Schema) : Nat → Kind → Bool
+    | 0, _ => false
+    | n + 1, k =>
+      match k with
+      | .ptr k' => svFreeK S n k'
+      | .slice k' => svFreeK S n k'
+      | .struct id =>
+        let d := S.structDef id
+        if d.encCustom then
+          if d.custom = Cust.requestBatchItem ∨ d.custom = Cust.responseBatchItem then
+            svFreeK S n (.struct (msgExtId S))
+          else if d.custom = Cust.credentialValue ∨ d.custom = Cust.keyValue ∨ d.custom = Cust.keyMaterial then
+            svFreeKs S n (customFieldKinds S d.custom)
+          else true
+        else svFreeFields S n d.fields
+      | _ => true
+  def svFreeFields (S : Schema) : Nat → List Field → Bool
+    | 0, _ => false
+    | _, [] => true
+    | n + 1, f :: fs => !f.setVersion && svFreeK S n f.kind && svFreeFields S n fs
+  def svFreeKs (S : Schema) : Nat → List Kind → Bool
+    | 0, _ => false
+    | _, [] => true
+    | n + 1, k :: ks => svFreeK S n k && svFreeKs S n ks
+end
+
+
+def SvFreeK (S : Schema) (k : Kind) : Prop := ∃ n, svFreeK S n k = true
+def SvFreeFields (S : Schema) (fs : List Field) : Prop := ∃ n, svFreeFields S n fs = true
+def SvFreeKs (S : Schema) (ks : List Kind) : Prop := ∃ n, svFreeKs S n ks = true
+/-- what `svFreeK` demands of a struct with a hand-written encoder. -/
+def SvFreeCustom (S : Schema) (code : Nat) : Prop :=
+  (code = Cust.requestBatchItem ∨ code = Cust.responseBatchItem → SvFreeK S (.struct (msgExtId S))) ∧
+  (code = Cust.credentialValue ∨ code = Cust.keyValue ∨ code = Cust.keyMaterial →
+    SvFreeKs S (customFieldKinds S code))
+
+theorem SvFreeK.ptr {S : Schema} {k : Kind} (h : SvFreeK S (.ptr k)) : SvFreeK S k := by
+  obtain ⟨n, h⟩ := h
+  cases n with
+  | zero => rw [svFreeK] at h; exact nomatch h
+  | succ n => rw [svFreeK] at h; exact ⟨n, h⟩
+
+theorem SvFreeK.slice {S : Schema} {k : Kind} (h : SvFreeK S (.slice k)) : SvFreeK S k := by
+  obtain ⟨n, h⟩ := h
+  cases n with
+  | zero => rw [svFreeK] at h; exact nomatch h
+  | succ n => rw [svFreeK] at h; exact ⟨n, h⟩
+
+theorem SvFreeK.of_ptr {S : Schema} {k : Kind} (h : SvFreeK S k) : SvFreeK S (.ptr k) := by
+  obtain ⟨n, h⟩ := h
+  exact ⟨n + 1, by rw [svFreeK]; exact h⟩
+
+theorem SvFreeK.iface (S : Schema) : SvFreeK S .iface := ⟨1, rfl⟩
+
+theorem SvFreeK.struct {S : Schema} {id : Nat} (h : SvFreeK S (.struct id)) :
+    ((S.structDef id).encCustom = true → SvFreeCustom S (S.structDef id).custom) ∧
+    ((S.structDef id).encCustom = false → SvFreeFields S (S.structDef id).fields) := by
+  obtain ⟨n, h⟩ := h
+  cases n with
+  | zero => rw [svFreeK] at h; exact nomatch h
+  | succ n =>
+    rw [svFreeK] at h
+    constructor
+    · intro hc
+      rw [if_pos hc] at h
+      constructor
+      · intro h1; rw [if_pos h1] at h; exact ⟨n, h⟩
+      · intro h2
+        have h1 : ¬((S.structDef id).custom = Cust.requestBatchItem ∨
+            (S.structDef id).custom = Cust.responseBatchItem) := by
+          intro h1
+          rcases h1 with h1 | h1 <;> rw [h1] at h2 <;> exact absurd h2 (by decide)
+        rw [if_neg h1, if_pos h2] at h; exact ⟨n, h⟩
+    · intro hc
+      rw [if_neg (by simp [hc])] at h
+      exact ⟨n, h⟩
+
+theorem SvFreeFields.cons {S : Schema} {f : Field} {fs : List Field} (h : SvFreeFields S (f :: fs)) :
+    f.setVersion = false ∧ SvFreeK S f.kind ∧ SvFreeFields S fs := by
+  obtain ⟨n, h⟩ := h
+  cases n with
+  | zero => rw [svFreeFields] at h; exact nomatch h
+  | succ n =>
+    rw [svFreeFields] at h
+    simp only [Bool.and_eq_true, Bool.not_eq_true'] at h
+    exact ⟨h.1.1, ⟨n, h.1.2⟩, ⟨n, h.2⟩⟩
+
+theorem SvFreeKs.cons {S : Schema} {k : Kind} {ks : List Kind} (h : SvFreeKs S (k :: ks)) :
+    SvFreeK S k ∧ SvFreeKs S ks := by
+  obtain ⟨n, h⟩ := h
+  cases n with
+  | zero => rw [svFreeKs] at h; exact nomatch h
+  | succ n =>
+    rw [svFreeKs] at h
+    simp only [Bool.and_eq_true] at h
+    exact ⟨⟨n, h.1⟩, ⟨n, h.2⟩⟩
+
+theorem Val.dynsOk_field {A : Nat → Bool} {fs : List Val} (h : Val.dynsOkL A fs = true) :
+    ∀ i, (fs.getD i (.int 0)).dynsOk A = true := by
+  induction fs with
+  | nil => intro i; simp [Val.dynsOk]
+  | cons v vs ih =>
+    rw [Val.dynsOkL, Bool.and_eq_true] at h
+    intro i
+    cases i with
+    | zero => exact h.1
+    | succ i => simpa using ih h.2 i
+
+/-- the statement proved by induction on the fuel: encoding a value whose kind reaches no set-version
+    field (and whose interface values hold only such kinds) returns the version cell it was given. -/
+structure CellStable (S : Schema) (A : Nat → Bool) (fuel : Nat) : Prop where
+  encK : ∀ k tag v cell items cell', SvFreeK S k → Val.dynsOk A v = true →
+    encK S fuel k tag v cell = .ok (items, cell') → cell' = cell
+  encSlice : ∀ k tag xs cell items cell', SvFreeK S k → Val.dynsOkL A xs = true →
+    encSlice S fuel k tag xs cell = .ok (items, cell') → cell' = cell
+  encFields : ∀ fields vs cell items cell', SvFreeFields S fields → Val.dynsOkL A vs = true →
+    encFields S fuel fields vs cell = .ok (items, cell') → cell' = cell
+  encCustom : ∀ code tag v cell items cell', SvFreeCustom S code → Val.dynsOk A v = true →
+    encCustom S fuel code tag v cell = .ok (items, cell') → cell' = cell
+  encSameTag : ∀ kinds tag xs cell items cell', SvFreeKs S kinds → Val.dynsOkL A xs = true →
+    encSameTag S fuel kinds tag xs cell = .ok (items, cell') → cell' = cell
+
+theorem cellStable_zero (S : Schema) (A : Nat → Bool) : CellStable S A 0 := by
+  constructor
+  · intro k tag v cell items cell' _ _ h; rw [encK] at h; exact nomatch h
+  · intro k tag xs cell items cell' _ _ h; rw [encSlice] at h; exact nomatch h
+  · intro fs vs cell items cell' _ _ h; rw [encFields] at h; exact nomatch h
+  · intro code tag v cell items cell' _ _ h; rw [encCustom] at h; exact nomatch h
+  · intro ks tag xs cell items cell' _ _ h; rw [encSameTag] at h; exact nomatch h
+
+theorem cellStable_succ (S : Schema) (A : Nat → Bool)
+    (hA : ∀ d, A d = true → SvFreeK S (S.dyn d).kind) (fuel : Nat) (ih : CellStable S A fuel) :
+    CellStable S A (fuel + 1) := by
+  constructor
+  · -- encK
+    intro k tag v cell items cell' hk hv h
+    rw [encK.eq_def] at h
+    dsimp only at h
+    split at h
+    all_goals first | (cases h; done) | (cases h; rfl) | skip
+    · -- interval
+      split at h
+      · cases h
+      · cases h; rfl
+    · -- ptr
+      rw [Val.dynsOk] at hv
+      exact ih.encK _ _ _ _ _ _ hk.ptr hv h
+    · -- slice
+      rw [Val.dynsOk] at hv
+      exact ih.encSlice _ _ _ _ _ _ hk.slice hv h
+    · -- iface
+      rw [Val.dynsOk, Bool.and_eq_true] at hv
+      exact ih.encK _ _ _ _ _ _ (hA _ hv.1) hv.2 h
+    · -- struct
+      rw [Val.dynsOk] at hv
+      have hs := hk.struct
+      split at h
+      · rename_i hc
+        exact ih.encCustom _ _ _ _ _ _ (hs.1 hc) (by rw [Val.dynsOk]; exact hv) h
+      · rename_i hc
+        obtain ⟨⟨a, c1⟩, h1, h2⟩ := Res.bind_eq_ok h
+        cases h2
+        exact ih.encFields _ _ _ _ _ (hs.2 (by simpa using hc)) hv h1
+  · -- encSlice
+    intro k tag xs cell items cell' hk hv h
+    cases xs with
+    | nil => rw [encSlice] at h; cases h; rfl; exact fun h => nomatch h
+    | cons x xs =>
+      rw [encSlice] at h
+      rw [Val.dynsOkL, Bool.and_eq_true] at hv
+      obtain ⟨⟨a, c1⟩, h1, h2⟩ := Res.bind_eq_ok h
+      obtain ⟨⟨b, c2⟩, h3, h4⟩ := Res.bind_eq_ok h2
+      cases h4
+      have e1 := ih.encK _ _ _ _ _ _ hk hv.1 h1
+      have e2 := ih.encSlice _ _ _ _ _ _ hk hv.2 h3
+      rw [e2, e1]
+  · -- encFields
+    intro fields vs cell items cell' hf hv h
+    cases fields with
+    | nil => rw [encFields] at h; cases h; rfl; exact fun h => nomatch h
+    | cons f fs =>
+      cases vs with
+      | nil => rw [encFields] at h; cases h; exact fun h => nomatch h
+      | cons v vs =>
+        rw [encFields_cons] at h
+        obtain ⟨hsv, hk, hfs⟩ := hf.cons
+        rw [Val.dynsOkL, Bool.and_eq_true] at hv
+        have hcell : fieldCell f v cell = cell := by unfold fieldCell; rw [hsv]; rfl
+        rw [hcell] at h
+        split at h
+        · exact ih.encFields _ _ _ _ _ hfs hv.2 h
+        · obtain ⟨⟨a, c1⟩, h1, h2⟩ := Res.bind_eq_ok h
+          obtain ⟨⟨b, c2⟩, h3, h4⟩ := Res.bind_eq_ok h2
+          cases h4
+          have e1 := ih.encK _ _ _ _ _ _ hk hv.1 h1
+          have e2 := ih.encFields _ _ _ _ _ hfs hv.2 h3
+          rw [e2, e1]
+  · -- encCustom
+    intro code tag v cell items cell' hc hv h
+    rw [encCustom.eq_def] at h
+    dsimp only at h
+    have hf : ∀ i, (v.field i).dynsOk A = true := by
+      intro i
+      cases v with
+      | struct fs => rw [Val.dynsOk] at hv; exact Val.dynsOk_field hv i
+      | _ => rfl
+    split at h
+    · rename_i h1
+      obtain ⟨⟨a, c1⟩, e1, h⟩ := Res.bind_eq_ok h
+      obtain ⟨⟨b, c2⟩, e2, h⟩ := Res.bind_eq_ok h
+      cases h
+      have r1 := ih.encK _ _ _ _ _ _ (SvFreeK.iface S) (hf 2) e1
+      have r2 := ih.encK _ _ _ _ _ _ (hc.1 (Or.inl h1)).of_ptr (hf 3) e2
+      rw [r2, r1]
+    · split at h
+      · rename_i h2
+        obtain ⟨⟨a, c1⟩, e1, h⟩ := Res.bind_eq_ok h
+        obtain ⟨⟨b, c2⟩, e2, h⟩ := Res.bind_eq_ok h
+        cases h
+        have r1 := ih.encK _ _ _ _ _ _ (SvFreeK.iface S) (hf 6) e1
+        have r2 := ih.encK _ _ _ _ _ _ (hc.1 (Or.inr h2)).of_ptr (hf 7) e2
+        rw [r2, r1]
+      · split at h
+        · split at h
+          · cases h; rfl
+          · cases h
+        · split at h
+          · rename_i h4
+            split at h
+            · rw [Val.dynsOk] at hv
+              exact ih.encSameTag _ _ _ _ _ _ (hc.2 h4) hv h
+            · cases h
+          · cases h
+  · -- encSameTag
+    intro kinds tag xs cell items cell' hk hv h
+    cases kinds with
+    | nil => rw [encSameTag] at h; cases h; rfl; exact fun h => nomatch h
+    | cons k ks =>
+      cases xs with
+      | nil => rw [encSameTag] at h; cases h; rfl; exact fun h => nomatch h
+      | cons x xs =>
+        rw [encSameTag] at h
+        rw [Val.dynsOkL, Bool.and_eq_true] at hv
+        obtain ⟨hk1, hk2⟩ := hk.cons
+        obtain ⟨⟨a, c1⟩, h1, h2⟩ := Res.bind_eq_ok h
+        obtain ⟨⟨b, c2⟩, h3, h4⟩ := Res.bind_eq_ok h2
+        cases h4
+        have e1 := ih.encK _ _ _ _ _ _ hk1 hv.1 h1
+        have e2 := ih.encSameTag _ _ _ _ _ _ hk2 hv.2 h3
+        rw [e2, e1]
+
+theorem cellStable (S : Schema) (A : Nat → Bool)
+    (hA : ∀ d, A d = true → SvFreeK S (S.dyn d).kind) : ∀ fuel, CellStable S A fuel
+  | 0 => cellStable_zero S A
+  | fuel + 1 => cellStable_succ S A hA fuel (cellStable S A hA fuel)
+
+/-- the dynamic types that may sit behind an interface without disturbing the version cell. -/
+def Schema.svFreeDyn (S : Schema) (N d : Nat) : Bool := svFreeK S N (S.dyn d).kind
+
+theorem Schema.svFreeDyn_sound (S : Schema) (N : Nat) :
+    ∀ d, S.svFreeDyn N d = true → SvFreeK S (S.dyn d).kind := fun _ h => ⟨N, h⟩
+
+/-- a header-shaped field list: the first field sets the version, nothing else does. -/
+theorem encFields_header_cell (S : Schema) (A : Nat → Bool)
+    (hA : ∀ d, A d = true → SvFreeK S (S.dyn d).kind) (fuel : Nat) (f : Field) (fs : List Field)
+    (v : Val) (vs : List Val) (cell : Option Ver) (items : List Item) (cell' : Option Ver)
+    (hsv : f.setVersion = true) (hk : SvFreeK S f.kind) (hfs : SvFreeFields S fs)
+    (hv : Val.dynsOkL A (v :: vs) = true)
+    (h : encFields S fuel (f :: fs) (v :: vs) cell = .ok (items, cell')) :
+    cell' = some v.asVer := by
+  cases fuel with
+  | zero => rw [encFields] at h; exact nomatch h
+  | succ fuel =>
+    have st := cellStable S A hA fuel
+    rw [encFields_cons] at h
+    rw [Val.dynsOkL, Bool.and_eq_true] at hv
+    have hcell : fieldCell f v cell = some v.asVer := by unfold fieldCell; rw [hsv]; rfl
+    rw [hcell] at h
+    split at h
+    · exact st.encFields _ _ _ _ _ hfs hv.2 h
+    · obtain ⟨⟨a, c1⟩, h1, h2⟩ := Res.bind_eq_ok h
+      obtain ⟨⟨b, c2⟩, h3, h4⟩ := Res.bind_eq_ok h2
+      cases h4
+      have e1 := st.encK _ _ _ _ _ _ hk hv.1 h1
+      have e2 := st.encFields _ _ _ _ _ hfs hv.2 h3
+      rw [e2, e1]
+
+namespace T
+def requestHeader := 0x420077
+def responseHeader := 0x42007A
+def requestMessage := 0x420078
+def responseMessage := 0x42007B
+end T
+
+/-- **decidable**: the only structs with a set-version field are the two message headers (recognised by
+    their default tag); there it is the FIRST field, its own kind (ProtocolVersion) and all the other header
+    fields reach no further set-version field (checked with fuel `N`). -/
+def Schema.noNestedSetVersion (S : Schema) (N : Nat) : Bool :=
+  S.structs.all fun d =>
+    if d.defTag = T.requestHeader ∨ d.defTag = T.responseHeader then
+      match d.fields with
+      | f :: fs => f.setVersion && svFreeK S N f.kind && svFreeFields S N fs
+      | [] => false
+    else d.fields.all (fun f => !f.setVersion)
+
+/-- **decidable**: every struct tagged RequestMessage / ResponseMessage is `[header, batch items]` where the
+    header field is a plain (unconditional) struct field whose struct is header-tagged, and the batch item
+    kind reaches no set-version field. -/
+def Schema.messageShape (S : Schema) (N : Nat) : Bool :=
+  S.structs.all fun d =>
+    if d.defTag = T.requestMessage ∨ d.defTag = T.responseMessage then
+      match d.fields with
+      | [fh, fb] =>
+        !fh.setVersion && !fb.setVersion && fh.vrange.isNone && !fh.omitempty && !d.encCustom &&
+        svFreeK S N fb.kind &&
+        (match fh.kind with
+         | .struct h =>
+           (decide ((S.structDef h).defTag = T.requestHeader) ||
+             decide ((S.structDef h).defTag = T.responseHeader)) && !(S.structDef h).encCustom
+         | _ => false)
+      | _ => false
+    else true
+
+/-- **decidable**: every dynamic type other than the two messages themselves can sit behind an interface
+    without disturbing the version cell. -/
+def Schema.dynsSvFree (S : Schema) (N : Nat) : Bool :=
+  (List.range S.dyns.length).all fun d =>
+    decide ((S.dyn d).defTag = T.requestMessage) || decide ((S.dyn d).defTag = T.responseMessage) ||
+      S.svFreeDyn N d
+
+/-! ### C05: the pinned introduction table -/
+
+/-- stable keys of a struct: its default tag, and `1000000 + 2·op + response` for every operation whose
+    registered request / response payload type it is. -/
+def structKeys (S : Schema) (id : Nat) : List Nat :=
+  let isMe (dynId : Nat) : Bool :=
+    (S.dyn dynId).kind == .ptr (.struct id) || (S.dyn dynId).kind == .struct id
+  (if (S.structDef id).defTag = 0 then [] else [(S.structDef id).defTag]) ++
+  S.ops.flatMap fun p =>
+    (if isMe p.2.1 then [1000000 + 2 * p.1] else []) ++
+    (if isMe p.2.2 then [1000000 + 2 * p.1 + 1] else [])
+
+/-- the pinned-table rows a field stands for (key 0 = "a gated field in a struct without a stable key" or
+    "a range that is not of the form `vM.m..`": such rows never occur in a pinned table). -/
+def fieldGates (keys : List Nat) (f : Field) : List (Nat × Nat × Nat × Nat) :=
+  match f.vrange with
+  | none => []
+  | some r =>
+    match r.start, r.stop with
+    | some (M, m), none => (if keys.isEmpty then [0] else keys).map fun k => (k, f.tag, M, m)
+    | _, _ => [(0, f.tag, 0, 0)]
+
+/-- ALL fields of the schema that carry a version range, as keyed rows. -/
+def Schema.gated (S : Schema) : List (Nat × Nat × Nat × Nat) :=
+  (List.range S.structs.length).flatMap fun id =>
+    (S.structDef id).fields.flatMap (fieldGates (structKeys S id))
+
+/-- the version annotations of the code are exactly the pinned table: both inclusions, same number of rows,
+    no key-0 row in the table. -/
+def gatingMatches (P : List (Nat × Nat × Nat × Nat)) (S : Schema) : Bool :=
+  S.gated.all (fun q => P.contains q) && P.all (fun q => S.gated.contains q) &&
+  S.gated.length == P.length && P.all (fun q => q.1 != 0)
+
+theorem gatingMatches_code_in_table (P : List (Nat × Nat × Nat × Nat)) (S : Schema)
+    (h : gatingMatches P S = true) (id : Nat) (hid : id < S.structs.length) (f : Field)
+    (hf : f ∈ (S.structDef id).fields) (r : VRange) (hr : f.vrange = some r) :
+    r.stop = none ∧ ∃ M m, r.start = some (M, m) ∧ structKeys S id ≠ [] ∧
+      ∀ k ∈ structKeys S id, (k, f.tag, M, m) ∈ P := by
+  unfold gatingMatches at h
+  simp only [Bool.and_eq_true, List.all_eq_true, List.contains_iff_mem, bne_iff_ne] at h
+  obtain ⟨⟨⟨h1, _⟩, _⟩, h4⟩ := h
+  have hmem : ∀ q ∈ fieldGates (structKeys S id) f, q ∈ P := by
+    intro q hq
+    apply h1
+    unfold Schema.gated
+    rw [List.mem_flatMap]
+    refine ⟨id, List.mem_range.2 hid, ?_⟩
+    rw [List.mem_flatMap]
+    exact ⟨f, hf, hq⟩
+  unfold fieldGates at hmem
+  rw [hr] at hmem
+  obtain ⟨st, sp⟩ := r
+  cases st with
+  | none =>
+    have := h4 _ (hmem (0, f.tag, 0, 0) (by simp))
+    exact absurd rfl this
+  | some Mm =>
+    obtain ⟨M, m⟩ := Mm
+    cases sp with
+    | some e =>
+      have := h4 _ (hmem (0, f.tag, 0, 0) (by simp))
+      exact absurd rfl this
+    | none =>
+      refine ⟨rfl, M, m, rfl, ?_, ?_⟩
+      · intro he
+        have := h4 _ (hmem (0, f.tag, M, m) (by simp [he]))
+        exact absurd rfl this
+      · intro k hk
+        apply hmem
+        have hne : (structKeys S id).isEmpty = false := by
+          cases hs : structKeys S id with
+          | nil => rw [hs] at hk; exact nomatch hk
+          | cons a l => rfl
+        simp only [hne, Bool.false_eq_true, if_false, List.mem_map]
+        exact ⟨k, hk, rfl⟩
+
+theorem gatingMatches_table_in_code (P : List (Nat × Nat × Nat × Nat)) (S : Schema)
+    (h : gatingMatches P S = true) (q : Nat × Nat × Nat × Nat) (hq : q ∈ P) :
+    ∃ id, id < S.structs.length ∧ q.1 ∈ structKeys S id ∧ ∃ f ∈ (S.structDef id).fields,
+      f.tag = q.2.1 ∧ f.vrange = some { start := some (q.2.2.1, q.2.2.2), stop := none } := by
+  unfold gatingMatches at h
+  simp only [Bool.and_eq_true, List.all_eq_true, List.contains_iff_mem, bne_iff_ne] at h
+  obtain ⟨⟨⟨_, h2⟩, _⟩, h4⟩ := h
+  have hg := h2 q hq
+  have hq0 := h4 q hq
+  unfold Schema.gated at hg
+  rw [List.mem_flatMap] at hg
+  obtain ⟨id, hid, hg⟩ := hg
+  rw [List.mem_flatMap] at hg
+  obtain ⟨f, hf, hg⟩ := hg
+  refine ⟨id, List.mem_range.1 hid, ?_⟩
+  unfold fieldGates at hg
+  cases hr : f.vrange with
+  | none => rw [hr] at hg; exact nomatch hg
+  | some r =>
+    rw [hr] at hg
+    obtain ⟨st, sp⟩ := r
+    cases st with
+    | none => simp at hg; rw [hg] at hq0; exact absurd rfl hq0
+    | some Mm =>
+      obtain ⟨M, m⟩ := Mm
+      cases sp with
+      | some e => simp at hg; rw [hg] at hq0; exact absurd rfl hq0
+      | none =>
+        simp only [List.mem_map] at hg
+        obtain ⟨k, hk, rfl⟩ := hg
+        cases hs : structKeys S id with
+        | nil => rw [hs] at hk; simp at hk; rw [hk] at hq0; exact absurd rfl hq0
+        | cons a l =>
+          rw [hs] at hk
+          simp only [List.isEmpty_cons, Bool.false_eq_true, if_false] at hk
+          exact ⟨hk, f, hf, rfl, hr⟩
+
 end Kmip
